@@ -109,12 +109,17 @@ impl hb_aat_map_builder_t {
                 return Some(());
             }
 
+            // A selector that does not fit the 16-bit featureSetting field matches nothing.
+            let Ok(setting) = u16::try_from(feature.value) else {
+                return Some(());
+            };
+
             self.features.push(feature_range_t {
                 start: feature.start,
                 end: feature.end,
                 info: feature_info_t {
                     kind: HB_AAT_LAYOUT_FEATURE_TYPE_CHARACTER_ALTERNATIVES as u16,
-                    setting: u16::try_from(feature.value).unwrap(),
+                    setting,
                     is_exclusive: true,
                 },
             });
